@@ -190,6 +190,8 @@ def _fd_sensitivities(m, p, cols):
             d.append((np.asarray(c.simulate(pp, TIMES)) -
                       np.asarray(c.simulate(pm, TIMES))) / (2 * hh))
         out.append((4 * d[1] - d[0]) / 3)
+    if not out:
+        return np.zeros((len(TIMES), c.n_outputs(), 0))
     # (n_times, n_outputs, n_cols)
     return np.transpose(np.array(out), (2, 1, 0))
 
@@ -225,7 +227,7 @@ def observe(m, tg, sens_cols=None, ctx=None, hist=None):
             got = o['sensitivities']
             # (finite-difference noise is relative to the size of the
             # simulated values: a true zero sensitivity shows as ~1e-8)
-            sc = max(float(np.max(np.abs(fd))),
+            sc = max(float(np.max(np.abs(fd))) if fd.size else 0.0,
                      float(np.max(np.abs(o['simulation'])))) + 1e-6
             if got.shape != fd.shape or not ctx.close(
                     got, fd, rtol=1e-4, scale=sc):
@@ -294,7 +296,9 @@ def _sens_cols(m, st):
     if st.sens_sub is None:
         return None
     names = list(m.parameters())
-    return sorted(names.index(st.pnames.get(k, k)) for k in st.sens_sub)
+    # (selected parameters that are fixed at the moment have no column)
+    return sorted(names.index(st.pnames.get(k, k)) for k in st.sens_sub
+                  if st.pnames.get(k, k) in names)
 
 
 def extended_ops(tg):
@@ -303,7 +307,7 @@ def extended_ops(tg):
         ('wrap',), ('fix',), ('release',), ('sim',), ('sens_sub',),
         ('sens_sub',), ('rename_param',), ('rename_back',),
         ('reg_protocol', 0), ('reg_protocol', 1), ('mutate_protocol',),
-        ('mutate_reported_regimen',)]
+        ('mutate_reported_regimen',), ('mutate_reported_administration',)]
 
 
 def apply(ctx, rng, tg, m, st, op, side, hist):
@@ -379,6 +383,14 @@ def apply(ctx, rng, tg, m, st, op, side, hist):
         if r is None:
             return None
         r.schedule(5.0, 3.0 + 0.1 * len(hist), 0.05)
+    elif k == 'mutate_reported_administration':
+        # ... or the dictionary administration() returned
+        inner = m.mechanistic_model() if red else m
+        info = inner.administration()
+        if info is None:
+            return None
+        info['direct'] = not info['direct']
+        info['compartment'] = 'edited by the caller'
     elif k == 'out':
         # outputs may be addressed by their original or by their current
         # (renamed) name; names of outputs that are de-selected are dropped
@@ -401,8 +413,10 @@ def apply(ctx, rng, tg, m, st, op, side, hist):
         st.sens_sub = None
     elif k == 'sens_sub':
         names = list(m.parameters())
-        if red or len(names) < 2:
+        if len(names) < 2:
             return None
+        # (on a reduced model the selection is made among its free
+        # parameters; later fix / release calls keep the selection)
         n_sub = int(rng.integers(1, len(names)))
         sub = [names[i] for i in rng.permutation(len(names))[:n_sub]]
         m.enable_sensitivities(True, parameter_names=sub)
@@ -447,6 +461,8 @@ def apply(ctx, rng, tg, m, st, op, side, hist):
         side.append((c, st_c, got))
     elif k == 'rename_param':
         names = m.parameters()
+        if not len(names):
+            return None
         j = int(rng.integers(len(names)))
         new = 'renamed %d' % len(hist)
         m.set_parameter_names({names[j]: new})
@@ -473,13 +489,22 @@ def apply(ctx, rng, tg, m, st, op, side, hist):
         if not red:
             return None
         names = m.parameters()
-        if len(names) <= 1:
+        if len(names) < 1:
             return None
         j = int(rng.integers(len(names)))
         val = float(rng.uniform(0.4, 1.2))
         m.fix_parameters({names[j]: val})
         inv = {v: k_ for k_, v in st.pnames.items()}
         st.fixed[inv.get(names[j], names[j])] = val
+    elif k == 'fix_all':
+        if not red or not len(m.parameters()):
+            return None
+        names = list(m.parameters())
+        inv = {v: k_ for k_, v in st.pnames.items()}
+        vals = {n: float(rng.uniform(0.4, 1.2)) for n in names}
+        m.fix_parameters(vals)
+        for n, v in vals.items():
+            st.fixed[inv.get(n, n)] = v
     elif k == 'release':
         if not red or not st.fixed:
             return None
@@ -574,10 +599,33 @@ def random_case(ctx, rng, idx):
     run_history(ctx, rng, tg, ops, 'random')
 
 
+def reduced_case(ctx, rng, idx):
+    """histories around a ReducedMechanisticModel: a short prefix on the
+    bare model, the wrapper, then fix / release / sensitivity selections /
+    output changes / renames in random order (all parameters may get
+    fixed)"""
+    tg = target(['library', 'generated'][idx % 2])
+    core = core_ops(tg)
+    prefix = [core[int(rng.integers(len(core)))]
+              for _ in range(int(rng.integers(0, 3)))]
+    alphabet = [('fix',), ('fix',), ('fix_all',), ('release',), ('sens_sub',),
+                ('sens_sub',), ('sens', True), ('sens', False), ('sim',),
+                ('rename_param',), ('rename_back',), ('copy', 'copy'),
+                ('copy', 'original')] + \
+        [('out', i) for i in range(len(tg.outs))]
+    n = int(rng.integers(3, 9))
+    ops = prefix + [('wrap',)] + [
+        alphabet[int(rng.integers(len(alphabet)))] for _ in range(n)]
+    ctx.case((tg.which, 'reduced') + _sig(ops), True,
+             sample={'target': tg.which, 'ops': ops})
+    run_history(ctx, rng, tg, ops, 'reduced')
+
+
 N3 = len(_HISTS[1]) + len(_HISTS[2]) + len(_HISTS[3])
 FAMILIES = [
     Family('exhaustive3', exhaustive3_case, quick=N3, thorough=N3),
     Family('exhaustive4', exhaustive4_case, quick=0,
            thorough=len(_HISTS[4])),
     Family('random', random_case, quick=1200, thorough=20000),
+    Family('reduced', reduced_case, quick=500, thorough=8000),
 ]
